@@ -337,20 +337,20 @@ def check(ctx) -> None:
                     if "dataclass" in obj.decorators:
                         n_calls += 1
                         probs = _dataclass_bind(P, obj, n)
-                        ctx.ob("APICOMPAT-call", f"{f.qualname}|{util.text(n, 60)}", f.loc(n), not probs,
+                        ctx.ob("APICOMPAT-call", f"{f.qualname}|{util.akey(n, f, 60)}", f.loc(n), not probs,
                                f"{obj.name}(…) binds to the dataclass fields" if not probs else
                                f"{util.text(n, 80)}: {'; '.join(probs)} under pulser-core {ver}")
                     continue
                 n_calls += 1
                 probs = bind_problems(init, n, True)
-                ctx.ob("APICOMPAT-call", f"{f.qualname}|{util.text(n, 60)}", f.loc(n), not probs,
+                ctx.ob("APICOMPAT-call", f"{f.qualname}|{util.akey(n, f, 60)}", f.loc(n), not probs,
                        f"{obj.name}(…) binds to its constructor" if not probs else
                        f"{util.text(n, 80)}: {'; '.join(probs)} under pulser-core {ver}")
             elif isinstance(obj, FuncInfo):
                 n_calls += 1
                 skip = obj.cls is not None and not obj.is_static
                 probs = bind_problems(obj, n, skip)
-                ctx.ob("APICOMPAT-call", f"{f.qualname}|{util.text(n, 60)}", f.loc(n), not probs,
+                ctx.ob("APICOMPAT-call", f"{f.qualname}|{util.akey(n, f, 60)}", f.loc(n), not probs,
                        f"{d}(…) binds to {obj.qualname}" if not probs else
                        f"{util.text(n, 80)}: {'; '.join(probs)} under pulser-core {ver}")
     ctx.count("pulser_calls", n_calls)
